@@ -89,7 +89,7 @@ PROTO = "rpyc/core/protocol.py::Connection."
 ATTR_FUNCS = [PROTO + n for n in ("_check_attr", "_access_attr", "_handle_getattr", "_handle_setattr", "_handle_delattr",
                                   "_handle_call", "_handle_callattr", "_handle_cmp", "_handle_ctxexit", "_handle_oldslicing")]
 SERVICE_HOOKS = ["rpyc/core/service.py::Service._rpyc_delattr", "rpyc/core/service.py::Service._rpyc_setattr"]
-ALL_CONTRACTS = ["brine", "compat", "externals", "stream", "channel", "protocol_attr", "colls", "protocol_box", "protocol_core", "async_", "protocol_close", "lib", "netref", "protocol_handlers"]
+ALL_CONTRACTS = ["brine", "compat", "externals", "stream", "channel", "protocol_attr", "colls", "protocol_box", "protocol_core", "async_", "protocol_close", "lib", "netref", "protocol_handlers", "scenarios"]
 ALL_SPECS = ["brine_spec", "channel_spec", "policy_spec", "refcount_spec", "protocol_spec", "box_spec", "netref_spec"]
 
 PLANS["C06"] = dict(
@@ -207,5 +207,131 @@ PLANS["C11"] = dict(
         "reach: proved are the end-state clauses on every exit path of close / serve / serve_all for every failure the "
         "transport's model can produce at every individual poll / read / write",
         "AsyncResult.wait on a closed connection and poll_all are covered by C15's interface contracts only",
+    ],
+)
+
+
+NETREF = "rpyc/core/netref.py::"
+BN = NETREF + "BaseNetref."
+SCEN = "@verif/spec/scenarios.py::"
+LIBF = "rpyc/lib/__init__.py::"
+BOX_LEMMAS = ["app_snoc", "app_nil", "plain_snoc", "app_app1", "snoc_is_app"]
+
+PLANS["C03"] = dict(
+    title="Immutable values travel by copy, everything else by reference; identity survives",
+    contracts=ALL_CONTRACTS, specs=ALL_SPECS, table="module",
+    targets=[BRINE + "dumpable", PROTO + "_box", PROTO + "_unbox", LIBF + "get_id_pack",
+             COLLS + "add", COLLS + "__getitem__", PROTO + "_handle_pickle", BN + "__reduce_ex__",
+             SCEN + "echo_returns_the_original", SCEN + "value_travels_by_copy", SCEN + "same_object_same_proxy",
+             SCEN + "forged_reference_is_refused"],
+    lemmas=BOX_LEMMAS, compositions=["C04/roundtrip"], native_focus=[], design_ref="DESIGN.md section 4, C03",
+    assumptions=COMMON_ASSUMPTIONS + [
+        "the value / reference decision is Connection._box's verified postcondition result == boxed(obj, conn) (spec/box_spec.py: "
+        "by value exactly when brine.dumpable says plain - exact types only, so subclass instances travel by reference; "
+        "item-wise for tuples; local-reference label for a proxy of this very connection; remote reference otherwise)",
+        "the identity clauses are postconditions of ghost clients (spec/scenarios.py) verified against the contracts of "
+        "_box / _unbox: echo -> the original object; plain value -> equal value of the same type; received again -> the same proxy",
+        "a label travels between the two peers unaltered: it is a plain value (verified), C04 round trip and C05 framing",
+        "T-ID (ASSUMED): id packs of simultaneously live objects differ; what the owner's table holds under v's id pack is v",
+        "T-WEAKREF (ASSUMED): the proxy cache is modelled as a map id pack -> live proxy (WeakValueDict lookups are interface "
+        "contracts); entries do not vanish in the middle of one _unbox",
+        "ASSUMED interface contract: Connection._netref_factory (class synthesis; a new proxy object with count 1 for this "
+        "connection and id pack)",
+        "get_id_pack: assumed_deterministic (the same object yields the same id pack while it lives)",
+        "obtain / deliver: only the pickling switch (_handle_pickle refuses before pickling unless allow_pickle) and the proxy's "
+        "__reduce_ex__ forwarding are under contract; that pickle.loads(pickle.dumps(x)) is an equal independent copy is the "
+        "library's contract (T-PICKLE), not checked",
+        "`a change made through the reference is a change to the owner's object` follows from echo identity (the handler "
+        "receives the owner's object itself) plus C06's handlers acting on exactly that object",
+    ],
+)
+
+PLANS["C10"]["targets"] = PLANS["C10"]["targets"] + [
+    PROTO + "_box", PROTO + "_unbox", PROTO + "_handle_del", NETREF + "asyncreq", BN + "__del__", PROTO + "_cleanup",
+    SCEN + "same_object_same_proxy"]
+PLANS["C10"]["lemmas"] = BOX_LEMMAS
+PLANS["C10"]["assumptions"] = COMMON_ASSUMPTIONS + [
+    "under contract: the reference-counting table (add / decref / clear / lookup, whole-view postconditions with frame); "
+    "_box adds exactly one box per occurrence of a lent id (tuples counted item-wise); _unbox bumps the live proxy's count by "
+    "one or creates a proxy with count 1; the proxy finalizer sends ONE release notice carrying the proxy's WHOLE count; "
+    "_handle_del removes exactly that many boxes of exactly that id; _cleanup empties the table",
+    "the inductive invariant B = F + P + D over ALL histories of box / unbox / drop-proxy / deliver-release transitions in any "
+    "order (a release notice crossing a fresh reference is covered without enumerating interleavings); each transition's "
+    "effect is the spec function the contracts above are stated with",
+    "a slot list fetched from the table aliases the table entry; slots of distinct ids are distinct list objects",
+    "T-GC (ASSUMED): a proxy's finalizer runs once when it becomes unreachable; T-ID: id packs of simultaneously live objects differ",
+    "T-WEAKREF (ASSUMED): the proxy cache is a map id pack -> live proxy; the window between a proxy's death and its cache "
+    "entry vanishing is not modelled",
+    "single-threaded transitions (the table's lock is modelled sequentially)",
+    "ASSUMED interface contract: Connection._netref_factory",
+]
+
+
+MM = NETREF + "_make_method.<locals>."
+FWD_METHODS = [BN + m for m in ("__getattribute__", "__getattr__", "__delattr__", "__setattr__", "__dir__", "__hash__", "__cmp__",
+                                "__eq__", "__ne__", "__lt__", "__gt__", "__le__", "__ge__", "__repr__", "__str__", "__exit__",
+                                "__reduce_ex__", "__instancecheck__", "__del__")]
+GEN_METHODS = [MM + "__call__", MM + "method#0", MM + "method#1", MM + "__array__"]
+SMALL_HANDLERS = [PROTO + n for n in ("_handle_ping", "_handle_getroot", "_handle_repr", "_handle_str", "_handle_hash", "_handle_dir",
+                                      "_handle_buffiter", "_handle_pickle", "_handle_del")]
+
+PLANS["C02"] = dict(
+    title="Operating on a proxy is indistinguishable from operating on the target (per-operation forwarding)",
+    contracts=ALL_CONTRACTS, specs=ALL_SPECS, table="module",
+    targets=[NETREF + "syncreq", NETREF + "asyncreq"] + FWD_METHODS + GEN_METHODS + SMALL_HANDLERS + ATTR_FUNCS,
+    lemmas=[], compositions=[], finite=["handler_table"], native_focus=[], design_ref="DESIGN.md section 4, C02",
+    assumptions=COMMON_ASSUMPTIONS + [
+        "SCOPE: the property is decided operation by operation. PROXY HALF (verified): every special method of BaseNetref and "
+        "every generated method (_make_method's four shapes) performs exactly ONE request on the proxy's own connection, with "
+        "the handler number and exactly the operands the operation has, and returns its result / lets its exception through; "
+        "names in LOCAL_ATTRS never leave the process. TABLE (enumerated on the real table): each handler number is served by "
+        "the handler function of that operation, numbers are distinct, arities match. SERVING HALF (verified): each handler "
+        "applies exactly that operation once to exactly the object it was handed (ghost Op / Call events) and returns / "
+        "raises what the operation did; attribute handlers additionally obey the policy (C06)",
+        "that the request's operands reach the handler as equal values / the same objects, and the result travels back, is "
+        "C03 (boxing) + C08 (dispatch) + C05/C04 (transport); exception identity is C09",
+        "`same result as on the target` then follows because the handler runs the very operation on the very object; the "
+        "operations themselves (repr, hash, getattr, the call) are ghost events, i.e. arbitrary user code",
+        "NOT under contract: which methods a generated proxy class has (class_factory, _handle_inspect, lib.get_methods, "
+        "NetrefClass), __instancecheck__ against non-proxy objects, helpers.buffiter (a generator; only the handler and the "
+        "request it sends per chunk are covered), bool()/len()/iteration which go through generated methods (covered as "
+        "_make_method shapes only)",
+        "self.__getattr__ inside __getattribute__ resolves to BaseNetref.__getattr__ (LOCAL_ATTRS lookup; class_factory never "
+        "overrides a LOCAL_ATTRS name)",
+        "kwargs are forwarded as tuple(kwargs.items()) - an uninterpreted function of the dict's contents (order = the dict's)",
+        "old-style slicing methods: stop is an int or None (Python 2 call convention)",
+    ],
+)
+
+
+PLANS["C01"] = dict(
+    title="Remote calls compute what a local call would, at any nesting depth (hop-by-hop contracts)",
+    contracts=ALL_CONTRACTS, specs=ALL_SPECS, table="module",
+    targets=[MM + "__call__", MM + "method#1", NETREF + "syncreq", PROTO + "sync_request", PROTO + "async_request",
+             PROTO + "_async_request", PROTO + "_box", PROTO + "_unbox", PROTO + "_send", PROTO + "_dispatch",
+             PROTO + "_dispatch_request", PROTO + "_seq_request_callback", PROTO + "_handle_call", PROTO + "_handle_callattr",
+             PROTO + "_access_attr", ASYNC + "__call__", ASYNC + "value", ASYNC + "wait",
+             SCEN + "echo_returns_the_original", SCEN + "value_travels_by_copy"],
+    lemmas=BOX_LEMMAS + ["frames_app", "all_fit_app"], compositions=["C04/roundtrip"], finite=["handler_table"],
+    native_focus=[], design_ref="DESIGN.md section 4, C01",
+    assumptions=COMMON_ASSUMPTIONS + [
+        "SCOPE: the property is decided hop by hop, each hop a verified contract: (1) a callable proxy / generated method "
+        "sends ONE request carrying exactly (args, tuple(kwargs.items())) [+ the method name]; (2) _async_request boxes the "
+        "operands item-wise (plain values by value, everything else by reference, C03) and sends one request message with a "
+        "fresh number; (3) _dispatch_request unboxes, runs AT MOST ONE handler ONCE, and sends exactly one reply carrying the "
+        "boxed result, or one exception reply; (4) _handle_call applies the callable exactly once to exactly (*args, "
+        "**dict(kwargs)); (5) _dispatch/_seq_request_callback hand the unboxed reply to the requester's own callback once "
+        "(C08); (6) AsyncResult delivers that value, or raises that exception, to the caller (C15)",
+        "NESTING: a handler runs arbitrary service code that may call back into the peer. The handler-table model "
+        "(handler_run) therefore lets one handler run touch everything a message exchange touches (sequence counter, "
+        "callback table, tables of lent objects and proxies, transport buffers) while preserving the connection's class "
+        "invariants - which is what each nested exchange, being one of the functions under contract, guarantees. So every "
+        "contract above holds at every nesting depth (modular induction on depth; termination / liveness not proved)",
+        "`the same answer as in one process` is not a single machine-checked theorem: it is the composition of (1)-(6) with "
+        "C03 identity (echo scenario) and C09 exception fidelity, argued in DESIGN.md",
+        "ASSUMED interface contracts: _box_exc / _unbox_exc (vinegar: C09), _netref_factory; Connection.serve as seen by a "
+        "waiter; poll_all",
+        "the callable itself is a ghost Call event: arbitrary user code with an arbitrary result or exception",
+        "sequential execution; threads (C13/C14) not covered",
     ],
 )
